@@ -214,3 +214,56 @@ package jobcontroller
 //@            (let t = jobtasks.taskCached(rj, rj.Status.Tasks[k].Name) in jobtasks.delReq[jobtasks.taskName(t)] || (jobtasks.taskDelSet(t) && jobtasks.taskDelNs(t) < clock)))
 //@   ensures [C13] never-forced: forall n string :: jobtasks.forceReq[n] ==> old(jobtasks.forceReq[n])
 //@   ensures [C13] cached-job-untouched: *rj == old(*rj)
+
+// ---- task creation and adoption (C09) ----------------------------------------------------------------------------------------
+
+// the task is controlled by this very Job (same UID), not merely by a Job of the same name
+//@ pure controls(rj *execution.Job, t jobtasks.Task) bool = exists k int :: 0 <= k && k < len(jobtasks.taskOwners(t))
+//@        && jobtasks.taskOwners(t)[k].Controller != nil && *jobtasks.taskOwners(t)[k].Controller
+//@        && jobtasks.taskOwners(t)[k].Kind == execution.KindJob && jobtasks.taskOwners(t)[k].UID == rj.UID
+
+//@ func Reconciler.getTaskForAdoption
+//@   tags C09
+//@   requires w != nil && rj != nil
+//@   loop 1 invariant -1 <= rangeindex && rangeindex < len(jobtasks.taskOwners(task))
+//@   loop 1 invariant forall k int :: 0 <= k && k <= rangeindex ==> !(jobtasks.taskOwners(task)[k].Controller != nil && *jobtasks.taskOwners(task)[k].Controller
+//@        && jobtasks.taskOwners(task)[k].Kind == execution.KindJob && jobtasks.taskOwners(task)[k].UID == rj.UID)
+//@   ensures [C09] adopt-only-own-task: result1 == nil && result0 != nil ==> result0 == jobtasks.taskCached(rj, name) && controls(rj, result0)
+//@   ensures [C09] foreign-task-not-adopted: result1 == nil && result0 == nil ==> jobtasks.taskCached(rj, name) != nil && !controls(rj, jobtasks.taskCached(rj, name))
+//@   ensures [C09] error-returns-nothing: result1 != nil ==> result0 == nil
+
+//@ func Reconciler.createTask
+//@   tags C09
+//@   requires w != nil && rj != nil
+//@   modifies jobtasks.tcN, jobtasks.tcJob, jobtasks.tcRetry, jobtasks.tcIndex, jobtasks.tcOK, jobtasks.tcErr, jobtasks.tcTask
+//@   ensures [C09] at-most-one-create: old(jobtasks.tcN) <= jobtasks.tcN && jobtasks.tcN <= old(jobtasks.tcN) + 1
+//@   ensures [C09] create-request: jobtasks.tcN == old(jobtasks.tcN) + 1 ==> jobtasks.tcJob[old(jobtasks.tcN)] == rj && jobtasks.tcRetry[old(jobtasks.tcN)] == index.Retry
+//@        && jobtasks.tcIndex[old(jobtasks.tcN)] == index.Parallel && jobtasks.tcOK[old(jobtasks.tcN)] == (result1 == nil)
+//@        && jobtasks.tcErr[old(jobtasks.tcN)] == errclass(result1) && jobtasks.tcTask[old(jobtasks.tcN)] == result0
+//@   ensures [C09] no-request-means-error: jobtasks.tcN == old(jobtasks.tcN) ==> result1 != nil
+//@   ensures [C09] result0 != nil <==> result1 == nil
+//@   ensures [C09] log-append-only: forall i int :: i < old(jobtasks.tcN) ==> jobtasks.tcJob[i] == old(jobtasks.tcJob[i]) && jobtasks.tcRetry[i] == old(jobtasks.tcRetry[i]) && jobtasks.tcOK[i] == old(jobtasks.tcOK[i])
+
+//@ pure hasAdmissionError(rj *execution.Job) bool = job.LabelKeyAdmissionErrorMessage in rj.Annotations
+//@ pure createErr(n Int) Int = jobtasks.tcErr[n]
+
+//@ func Reconciler.syncCreateTask
+//@   tags C09
+//@   requires w != nil && rj != nil
+//@   modifies elems(tasks), jobtasks.tcN, jobtasks.tcJob, jobtasks.tcRetry, jobtasks.tcIndex, jobtasks.tcOK, jobtasks.tcErr, jobtasks.tcTask
+//@   ensures [C09] at-most-one-create: old(jobtasks.tcN) <= jobtasks.tcN && jobtasks.tcN <= old(jobtasks.tcN) + 1
+//@   ensures [C09] created-task-recorded: jobtasks.tcN == old(jobtasks.tcN) + 1 && jobtasks.tcOK[old(jobtasks.tcN)] ==> result2 == nil && result0 == rj
+//@        && len(result1) == len(tasks) + 1 && result1[len(tasks)] == jobtasks.tcTask[old(jobtasks.tcN)] && (forall k int :: 0 <= k && k < len(tasks) ==> result1[k] == tasks[k])
+//@   ensures [C09] existing-own-task-adopted: jobtasks.tcN == old(jobtasks.tcN) + 1 && createErr(old(jobtasks.tcN)) == 409001 && result2 == nil
+//@        && jobtasks.taskCached(rj, job.taskNameOf(rj.Name, index)) != nil && controls(rj, jobtasks.taskCached(rj, job.taskNameOf(rj.Name, index)))
+//@        ==> result0 == rj && len(result1) == len(tasks) + 1 && result1[len(tasks)] == jobtasks.taskCached(rj, job.taskNameOf(rj.Name, index))
+//@             && (forall k int :: 0 <= k && k < len(tasks) ==> result1[k] == tasks[k])
+//@   ensures [C09] foreign-task-ends-in-admission-error: jobtasks.tcN == old(jobtasks.tcN) + 1 && createErr(old(jobtasks.tcN)) == 409001 && result2 == nil
+//@        && jobtasks.taskCached(rj, job.taskNameOf(rj.Name, index)) != nil && !controls(rj, jobtasks.taskCached(rj, job.taskNameOf(rj.Name, index)))
+//@        ==> result0 != nil && hasAdmissionError(result0) && len(result1) == len(tasks)
+//@   ensures [C09] refused-creation-ends-in-admission-error: jobtasks.tcN == old(jobtasks.tcN) + 1 && createErr(old(jobtasks.tcN)) == 900 && result2 == nil
+//@        ==> result0 != nil && hasAdmissionError(result0) && len(result1) == len(tasks)
+//@   ensures [C09] tasks-never-dropped: len(result1) >= len(tasks) && (forall k int :: 0 <= k && k < len(tasks) ==> result1[k] == old(tasks[k]))
+//@   ensures [C09,C20] other-errors-are-returned: jobtasks.tcN == old(jobtasks.tcN) + 1 && !jobtasks.tcOK[old(jobtasks.tcN)]
+//@        && createErr(old(jobtasks.tcN)) != 409001 && createErr(old(jobtasks.tcN)) != 900 ==> result2 != nil && result0 == rj && len(result1) == len(tasks)
+//@   ensures [C09] cached-job-untouched: *rj == old(*rj) && (forall k string :: (k in rj.Annotations) == old(k in rj.Annotations))
